@@ -208,8 +208,10 @@ class SSModel(object):
             return SSModel(A, B, C, D, method=method)
 
         if method == "zoh":
-            I = np.eye(self.A.shape[0])
-            B = la.solve(self.A - I, A.dot(self.B))
+            # z.B = I1 * s.B, with I1 the integral of exp(s.A*t) over one
+            # step; I1 is non-singular also when s.A is singular
+            E, P, Q = expmint.getEPQ(A, h, 0)
+            B = la.solve(P, self.B)
             C = self.C.copy()
             D = self.D.copy()
             return SSModel(A, B, C, D, method=method)
